@@ -137,7 +137,13 @@ func c12Sentinel() *base.Base {
 }
 
 func c12Unmarshal(data []byte, p *c12Payload) V {
+	// the frame arrives in the caller's receive buffer, which is reused as soon as the call returns:
+	// the method name, the decoded payload and a surfaced exception must not change with it
+	data = append([]byte(nil), data...)
 	method, seq, err := thrift.UnmarshalFastMsg(data, p.target)
+	for i := range data {
+		data[i] = 0xEE
+	}
 	return Ls(Str(method), I64(int64(seq)), c12ErrCls(err))
 }
 
